@@ -329,6 +329,9 @@ def run_check(comp, tier: str, seed: int, replay: str | None = None) -> int:
     import_haiway()
     if hasattr(comp, "setup"):
         comp.setup()
+    # proof obligations regenerated from /repo's current source by a translator (optional, per component):
+    # [{"name":…, "status": "ok"|"broken"|"skipped", "detail":…}]
+    extra = list(comp.extra_obligations()) if hasattr(comp, "extra_obligations") else []
 
     # 3. cases
     rng = random.Random(f"{seed}/{pid}")
@@ -446,6 +449,36 @@ def run_check(comp, tier: str, seed: int, replay: str | None = None) -> int:
                 "disagreeing_cases": len(unexplained), "search": f"{searched} neighbours + {len(cases)} explored cases: property monitor held on all"})
             violations.append(("correspondence", p, False))
 
+    # 5c. regenerated proof obligations that no longer check: failing-input search, then the verdict table
+    broken = [e for e in extra if e["status"] == "broken"]
+    if broken and not violations:
+        srng = random.Random(f"{seed}/{pid}/search-gen")
+        found = None
+        n_search = 1500 if tier == "quick" else 10000
+        for _ in range(n_search):
+            cand = comp.mutate(srng, srng.choice(cases))
+            searched += 1
+            sigs = [s_ for s_ in real_and_monitor(cand) if s_ not in known_sigs]
+            if sigs:
+                found = (cand, sigs[0])
+                break
+        if found:
+            cand, sig = found
+            cand = shrink_case(comp, cand, lambda c: sig in real_and_monitor(c))
+            cand_real = guarded(comp.run_real, cand)
+            p = write_replay(pid, "violation", {
+                "property": pid, "kind": "property-fails-on-implementation", "signature": sig, "case": cand,
+                "found_by": "failing-input search after a regenerated proof obligation broke",
+                "broken_obligations": [e["name"] for e in broken], "implementation_output": cand_real,
+                "model_output": model_of(cand, cand_real)})
+            violations.append((sig, p, True))
+        else:
+            p = write_replay(pid, "obligation", {
+                "property": pid, "kind": "proof-obligation-broken",
+                "what_no_longer_checks": [e["name"] for e in broken], "detail": [e.get("detail", "")[:1500] for e in broken],
+                "search": f"{searched} neighbours + {len(cases)} explored cases: property monitor held on all"})
+            violations.append(("obligation", p, False))
+
     # 6. evidence
     samples = []
     for i in ([*range(min(2, len(cases)))] + [len(cases) // 2, len(cases) - 1])[:4]:
@@ -454,7 +487,9 @@ def run_check(comp, tier: str, seed: int, replay: str | None = None) -> int:
     ev = {
         "property_id": pid, "tier": tier, "seed": seed, "level": "proof",
         "coverage": {
-            "obligations": len(thms) + examples, "discharged": len(thms) + examples,
+            "obligations": len(thms) + examples + sum(1 for e in extra if e["status"] != "skipped"),
+            "discharged": len(thms) + examples + sum(1 for e in extra if e["status"] == "ok"),
+            "regenerated_obligations": [{k: e.get(k) for k in ("name", "status", "note")} for e in extra],
             "theorems": {n: axioms[n] for n in thms}, "nonvacuity_examples": examples,
             "checker_cmd": checker_cmd, "leanchecker_rc": leanchecker,
             "trusted_base": ["Lean 4.33 kernel + elaborator", "axioms ⊆ {propext, Classical.choice, Quot.sound} (audited per theorem)",
@@ -469,7 +504,7 @@ def run_check(comp, tier: str, seed: int, replay: str | None = None) -> int:
         "assumptions": list(comp.ASSUMPTIONS),
         "wall_s": round(wall() - t0, 2), "violations": len(violations),
     }
-    if not replay:
+    if not replay and not os.environ.get("VERIF_NO_EVIDENCE"):
         (VERIF / "evidence").mkdir(exist_ok=True)
         (VERIF / "evidence" / f"{pid}.json").write_text(json.dumps(ev, indent=1, ensure_ascii=False))
     else:
